@@ -1911,22 +1911,15 @@ impl StorageEngine {
                 Value::String(bytes) => {
                     let len = bytes.len() as isize;
                     
-                    let start = if start < 0 {
-                        std::cmp::max(0, len + start) as usize
-                    } else {
-                        start as usize
-                    };
+                    // Negative indices count from the end; both are then clamped to the string
+                    let first = if start < 0 { std::cmp::max(0, len.saturating_add(start)) } else { start };
+                    let last = if end < 0 { std::cmp::max(0, len.saturating_add(end)) } else { end };
+                    let last = std::cmp::min(last, len - 1);
                     
-                    let end = if end < 0 {
-                        std::cmp::max(-1, len + end) as usize
-                    } else {
-                        std::cmp::min(end as usize, len as usize - 1)
-                    };
-                    
-                    if start > end || start >= bytes.len() {
+                    if len == 0 || (start < 0 && end < 0 && start > end) || first > last {
                         Vec::new()
                     } else {
-                        bytes[start..=end].to_vec()
+                        bytes[first as usize..=last as usize].to_vec()
                     }
                 }
                 _ => return Err(StorageError::WrongType.into()),
